@@ -141,6 +141,8 @@ pub fn run_check(id: &str, tier: &str) -> i32 {
         "C18" => c18(tier, thorough),
         "C14" => c14(tier, thorough),
         "C07" => c07(tier, thorough),
+        "C09" => c09(tier, thorough),
+        "C17" => c17(tier, thorough),
         _ => {
             eprintln!("unknown check {}", id);
             2
@@ -595,6 +597,144 @@ fn c07(tier: &str, thorough: bool) -> i32 {
         }
     }
     ctx.finish(seqs, acts)
+}
+
+fn c09(tier: &str, thorough: bool) -> i32 {
+    let ctx = leak(Ctx::new("C09", tier, level_mc(), "e1n", &["model", "refusal", "spec", "reopen"]));
+    common_assumptions(ctx);
+    ctx.assume("upper-casing is judged only on the explicit table of names.rs (ASCII, Latin-1, Greek, Cyrillic, fullwidth; surrogate halves and everything else unchanged); names outside the alphabet are not covered");
+    ctx.set_rule("(a) every name of the alphabet (22 base names incl. cased/caseless non-ASCII, exceptional upper-casing, supplementary plane; x^n, e-acute^n and emoji names of every length 1..40 units; each of / \\ : ! embedded) x every creation call at two depths, full oracle (model incl. case-variant lookups, image unchanged on refusal, independent checker, reopen); (b) every ordered selection of k pairwise case-distinct names inserted in that order with the full oracle after each insertion, collisions up to case, then every removal order; (c) every path spelling x every API call incl. escaping and non-UTF-8 paths");
+    let mut hists = 0u64;
+    let mut steps = 0u64;
+    let mut add = |st: crate::e1n::NStats, label: &str, ctx: &Ctx| {
+        ctx.note(format!("{}: histories={} steps={}", label, st.histories, st.steps));
+        hists += st.histories;
+        steps += st.steps;
+    };
+    for v in [3u16, 4] {
+        add(crate::e1n::validity(ctx, v), &format!("v{} validity", v), ctx);
+        add(crate::e1n::spellings(ctx, v), &format!("v{} spellings", v), ctx);
+        let names = crate::e1n::base_names();
+        if thorough {
+            add(crate::e1n::coexistence(ctx, v, &names, 4), &format!("v{} coexistence k=4 over {} names", v, names.len()), ctx);
+            let few: Vec<String> = names.iter().filter(|n| !n.is_ascii() || n.len() == 1).take(12).cloned().collect();
+            add(crate::e1n::coexistence(ctx, v, &few, 5), &format!("v{} coexistence k=5 over {} names", v, few.len()), ctx);
+        } else {
+            add(crate::e1n::coexistence(ctx, v, &names, 3), &format!("v{} coexistence k=3 over {} names", v, names.len()), ctx);
+            if v == 3 {
+                let few: Vec<String> = ["a", "B", "\u{e9}", "\u{1f600}", "\u{e000}a", "\u{3a9}", "ab", "\u{ff21}"].iter().map(|s| s.to_string()).collect();
+                add(crate::e1n::coexistence(ctx, v, &few, 4), &format!("v{} coexistence k=4 over {} names", v, few.len()), ctx);
+            }
+        }
+    }
+    ctx.finish(hists, steps)
+}
+
+fn c17(tier: &str, thorough: bool) -> i32 {
+    use crate::ops::TimeSpec;
+    use rayon::prelude::*;
+    let ctx = leak(Ctx::new("C17", tier, level_mc(), "e1m", &["model", "reopen", "refusal"]));
+    common_assumptions(ctx);
+    ctx.assume("expected FILETIME values are computed independently in i128 (100 ns units since 1601, truncated toward the Unix epoch, clamped to [0, 2^64-1])");
+    ctx.set_rule("every setter x every value of the alphabets (CLSID: nil, all-ones, a mixed pattern, 16 single-byte patterns; state bits: 0, 1, 2^31, all-ones, 0x01020304, 32 single bits; instants around the Unix epoch, 1601, the upper saturation point, far future, pre-1601, each with sub-100ns offsets on both sides) x object kind (root, storage, stream) x directory position (1st, 2nd, 3rd directory sector) x version; read back through entry, listings, after reopen in both modes and by the independent parser; plus all ordered pairs of setter kinds on one object, setters on missing paths and CLSID on streams");
+    let mut clsids: Vec<[u8; 16]> = vec![[0; 16], [0xFF; 16], [0x00, 0x11, 0x22, 0x33, 0x44, 0x55, 0x66, 0x77, 0x88, 0x99, 0xaa, 0xbb, 0xcc, 0xdd, 0xee, 0xff]];
+    for i in 0..16 {
+        let mut c = [0u8; 16];
+        c[i] = 0x80 | (i as u8 + 1);
+        clsids.push(c);
+    }
+    let mut bits: Vec<u32> = vec![0, 1, 0x8000_0000, 0xFFFF_FFFF, 0x0102_0304];
+    for i in 0..32 {
+        bits.push(1u32 << i);
+    }
+    let mut times: Vec<TimeSpec> = Vec::new();
+    let nanos_set: Vec<u32> = if thorough { (0..=250).collect() } else { vec![0, 1, 50, 99, 100, 101, 199, 200, 250, 999_999_999] };
+    // anchors: (neg, secs)
+    let anchors: Vec<(bool, u64)> = vec![
+        (false, 0),                  // Unix epoch
+        (true, 0),
+        (true, 1),
+        (false, 1),
+        (true, 11_644_473_600),      // 1601-01-01
+        (true, 11_644_473_599),
+        (true, 11_644_473_601),
+        (true, 20_000_000_000),      // before 1601
+        (false, 1_833_029_933_770),  // the second in which FILETIME saturates
+        (false, 1_833_029_933_769),
+        (false, 1_833_029_933_771),
+        (false, 4_000_000_000_000),  // far beyond
+        (false, 1_700_000_000),      // an ordinary instant
+    ];
+    for (neg, secs) in anchors {
+        for &n in &nanos_set {
+            times.push(TimeSpec { neg, secs, nanos: n });
+        }
+    }
+    times.push(TimeSpec { neg: false, secs: 1_833_029_933_770, nanos: 955_161_500 }); // exactly u64::MAX
+    times.push(TimeSpec { neg: false, secs: 1_833_029_933_770, nanos: 955_161_600 });
+    times.push(TimeSpec { neg: false, secs: 1_833_029_933_770, nanos: 955_161_499 });
+    let mut hists: Vec<History> = Vec::new();
+    for v in [3u16, 4] {
+        let per = if v == 3 { 4 } else { 32 };
+        // fillers so that the target lands in the 1st, 2nd, 3rd directory sector
+        for sector in 0..3usize {
+            let fillers = if sector == 0 { 0 } else { sector * per };
+            let seed = if fillers == 0 { "fresh".to_string() } else { format!("s{}x0", fillers) };
+            for kind in ["root", "storage", "stream"] {
+                let (mut setup, target): (Vec<Op>, String) = match kind {
+                    "root" => (vec![], "/".into()),
+                    "storage" => (vec![Op::CreateStorage("/T".into())], "/T".into()),
+                    _ => (vec![Op::Rewrite("/T".into(), 70)], "/T".into()),
+                };
+                if kind == "root" && sector > 0 {
+                    continue; // the root entry is always slot 0
+                }
+                let mut push = |ops_: Vec<Op>| {
+                    let mut o = setup.clone();
+                    o.extend(ops_);
+                    let n = o.len();
+                    hists.push(History { version: v, seed: seed.clone(), ops: o, reopen_after: vec![false; n] });
+                };
+                for c in &clsids {
+                    push(vec![Op::SetClsid(target.clone(), *c)]);
+                }
+                for b in &bits {
+                    push(vec![Op::SetStateBits(target.clone(), *b)]);
+                }
+                for t in &times {
+                    push(vec![Op::SetCreated(target.clone(), *t)]);
+                    push(vec![Op::SetModified(target.clone(), *t)]);
+                }
+                push(vec![Op::Touch(target.clone())]);
+                // ordered pairs of setter kinds: one setter must not clobber another field
+                let a = [Op::SetClsid(target.clone(), clsids[2]), Op::SetStateBits(target.clone(), 0x0102_0304), Op::SetCreated(target.clone(), times[3]), Op::SetModified(target.clone(), times[5]), Op::Rewrite("/other".into(), 10), Op::SetStateBits(target.clone(), 0)];
+                for x in &a {
+                    for y in &a {
+                        push(vec![x.clone(), y.clone()]);
+                    }
+                }
+                setup.clear();
+            }
+            // missing paths
+            for op in [Op::SetClsid("/nope".into(), clsids[1]), Op::SetStateBits("/nope".into(), 1), Op::SetCreated("/nope/x".into(), times[0]), Op::SetModified("/nope".into(), times[0]), Op::Touch("/nope".into())] {
+                hists.push(History { version: v, seed: seed.clone(), ops: vec![op], reopen_after: vec![false] });
+            }
+        }
+    }
+    ctx.sample(json!({"metadata_history": hists[hists.len() / 3]}));
+    ctx.sample(json!({"metadata_history": hists[hists.len() - 7]}));
+    let steps: u64 = hists
+        .par_iter()
+        .map(|h| {
+            let r = run_history(h, 0, &Oracles::ALL, &[]);
+            ctx.report_all(r.violations);
+            r.steps
+        })
+        .sum();
+    ctx.set("clsid_values", clsids.len() as u64);
+    ctx.set("state_bit_values", bits.len() as u64);
+    ctx.set("instants", times.len() as u64);
+    ctx.finish(hists.len() as u64, steps)
 }
 
 fn c18_histories(v: u16, depth: usize, sizes: &[usize]) -> Vec<History> {
